@@ -18,13 +18,18 @@
        buffered): every survivor is blocked on its OWN provider channel, receiving (poised) or
        sending a positive message (offering a result nobody takes); if each of these channels has a
        client, nobody survives.
-   NOT proved: the non-polarized mode; the premises teq_laws and topo_reachable (the latter is false
+     * C02_progress_run_tc_partial / C02_progress_sync_run_tc_partial : the same two statements with
+       the premises teq_ok and tc_annotations_typed DISCHARGED (agreement teq_rt = identity or
+       bisimilarity; proofs/RtTcSound.v, RtTcSoundTop.v, RtTcBisim.v, RtTheoremsTc.v); premises left,
+       per program: prog_syn_ok p, rt_syn_ok p (computable, evaluated by the check module) and Topo
+       on the reachable configurations.
+   NOT proved: the non-polarized mode; the premise topo_runs / topo_reachable (the latter is false
    for programs whose top-level processes use each other cyclically: finding F29, fixed in /repo). *)
 From stdpp Require Import gmap strings.
 Require Import Grits.Base Grits.ModeDefs Grits.Modes Grits.STypes Grits.Forms Grits.Subst Grits.TcDeps Grits.Expand
                Grits.Tc Grits.TcTop Grits.Runtime Grits.spec.RtTyping Grits.spec.Topo
                Grits.proofs.RtEffect Grits.proofs.RtSafety Grits.proofs.RtInit Grits.proofs.RtProgress
-               Grits.proofs.RtTheorems.
+               Grits.proofs.RtTheorems Grits.spec.SynOk Grits.proofs.RtTcSyn Grits.proofs.RtTcBisim Grits.proofs.RtTheoremsTc.
 
 Theorem C02_progress_partial : forall D F teq, teq_laws D teq -> funs_typed D F teq ->
   forall Δ c,
@@ -81,6 +86,63 @@ Theorem C02_progress_sync_run_partial : forall teqD : tenv -> sty -> sty -> Prop
                 exists o, obj_in c o /\ k ∈ refs o) -> procs c = ∅).
 Proof. exact progress_sync_run_partial. Qed.
 
+(* the same without teq_ok and tc_annotations_typed *)
+Theorem C02_progress_run_tc_partial : forall p p',
+  typecheck p = Accept p' -> in_fragment p' -> prog_syn_ok p = true -> rt_syn_ok p = true ->
+  (* topo_runs *)
+  (forall md c, is_np md = false -> reachable (p_types p') (p_funs p') md (init_config p') c -> Topo c) ->
+  forall fuel pick c,
+    exec_run fuel pick Async (p_types p') (p_funs p') (init_config p') = RQuiescent c ->
+    exists Δ : gmap cid sty,
+    (forall self pr, procs c !! self = Some pr ->
+       exists k st T, action_of Async (p_types p') pr = ARecv k /\ own_chan pr k /\
+                      Δ !! k = Some T /\ pol_of_ty (p_types p') T Neg /\
+                      chans c !! k = Some st /\ ch_buf st = None /\ ch_closed st = false) /\
+    (forall k st m, chans c !! k = Some st -> ch_buf st = Some m -> is_pos_rule (m_rule m) = true) /\
+    ((forall k, alive c k -> exists o, obj_in c o /\ k ∈ refs o) -> procs c = ∅).
+Proof. exact progress_run_tc_partial. Qed.
+
+Theorem C02_progress_sync_run_tc_partial : forall p p',
+  typecheck p = Accept p' -> in_fragment p' -> prog_syn_ok p = true -> rt_syn_ok p = true ->
+  (forall md c, is_np md = false -> reachable (p_types p') (p_funs p') md (init_config p') c -> Topo c) ->
+  forall fuel pick c,
+    exec_run fuel pick Sync (p_types p') (p_funs p') (init_config p') = RQuiescent c ->
+    (forall self pr, procs c !! self = Some pr ->
+       exists k, own_chan pr k /\
+         (action_of Sync (p_types p') pr = ARecv k \/
+          exists m, action_of Sync (p_types p') pr = ASend k m /\ is_pos_rule (m_rule m) = true)) /\
+    ((forall k, (exists self pr, procs c !! self = Some pr /\ k ∈ cids_of (pr_provs pr)) ->
+                exists o, obj_in c o /\ k ∈ refs o) -> procs c = ∅).
+Proof. exact progress_sync_run_tc_partial. Qed.
+
+(* programs that come out of the parser: prog_syn_ok is a theorem (proofs/ParseSynOk.v) *)
+Theorem C02_progress_run_parsed_partial : forall txt p p',
+  parse_string txt = POk p -> typecheck p = Accept p' -> in_fragment p' -> rt_syn_ok p = true ->
+  (forall md c, is_np md = false -> reachable (p_types p') (p_funs p') md (init_config p') c -> Topo c) ->
+  forall fuel pick c,
+    exec_run fuel pick Async (p_types p') (p_funs p') (init_config p') = RQuiescent c ->
+    exists Δ : gmap cid sty,
+    (forall self pr, procs c !! self = Some pr ->
+       exists k st T, action_of Async (p_types p') pr = ARecv k /\ own_chan pr k /\
+                      Δ !! k = Some T /\ pol_of_ty (p_types p') T Neg /\
+                      chans c !! k = Some st /\ ch_buf st = None /\ ch_closed st = false) /\
+    (forall k st m, chans c !! k = Some st -> ch_buf st = Some m -> is_pos_rule (m_rule m) = true) /\
+    ((forall k, alive c k -> exists o, obj_in c o /\ k ∈ refs o) -> procs c = ∅).
+Proof. exact progress_run_parsed_partial. Qed.
+
+Theorem C02_progress_sync_run_parsed_partial : forall txt p p',
+  parse_string txt = POk p -> typecheck p = Accept p' -> in_fragment p' -> rt_syn_ok p = true ->
+  (forall md c, is_np md = false -> reachable (p_types p') (p_funs p') md (init_config p') c -> Topo c) ->
+  forall fuel pick c,
+    exec_run fuel pick Sync (p_types p') (p_funs p') (init_config p') = RQuiescent c ->
+    (forall self pr, procs c !! self = Some pr ->
+       exists k, own_chan pr k /\
+         (action_of Sync (p_types p') pr = ARecv k \/
+          exists m, action_of Sync (p_types p') pr = ASend k m /\ is_pos_rule (m_rule m) = true)) /\
+    ((forall k, (exists self pr, procs c !! self = Some pr /\ k ∈ cids_of (pr_provs pr)) ->
+                exists o, obj_in c o /\ k ∈ refs o) -> procs c = ∅).
+Proof. exact progress_sync_run_parsed_partial. Qed.
+
 (* non-vacuity: the example program of the fragment ends in quiescence with no process left
    (synchronous: the top-level provider stays blocked offering its result on a client-less channel) *)
 Example C02_example_runs :
@@ -97,4 +159,8 @@ Print Assumptions C02_progress_partial.
 Print Assumptions C02_progress_run_partial.
 Print Assumptions C02_progress_sync_partial.
 Print Assumptions C02_progress_sync_run_partial.
+Print Assumptions C02_progress_run_tc_partial.
+Print Assumptions C02_progress_sync_run_tc_partial.
+Print Assumptions C02_progress_run_parsed_partial.
+Print Assumptions C02_progress_sync_run_parsed_partial.
 Print Assumptions C02_example_runs.
